@@ -1,4 +1,6 @@
 #!/bin/bash
+# evidence of runs against a modified tree goes to a scratch directory, never to /verif/evidence
+export VERIF_EVIDENCE_DIR=${VERIF_EVIDENCE_DIR:-/verif/out/evidence-scratch}
 # Re-runs every stored seeded change against the checks of the properties it breaks (meta.json: property +
 # breaks) with the current machinery and writes seeded/MATRIX.md. Applies each patch to /repo and restores it.
 REPO=${REPO:-/repo}
